@@ -107,7 +107,8 @@ def spec_from_shape(sh):
                                price=(_vec(a.price, sh.prices, tg, T) if a.price is not None else None)))
         elif cls == 'OrderBook':
             orders = []
-            for s, e, cp, pr in zip(a.orders['start'], a.orders['end'], a.orders['capa'], a.orders['price']):
+            uo = (getattr(sh, 'meta', None) or {}).get('user_orders', {}).get(a.name, a.orders)      # the orders as the user gave them
+            for s, e, cp, pr in zip(uo['start'], uo['end'], uo['capa'], uo['price']):
                 s, e = _ts(s, tg.tz), _ts(e, tg.tz)
                 orders.append(dict(steps=[t for t in range(T) if s <= tp[t] < e], capa=zl(cp), price=zl(pr)))
             assets.append(dict(base, kind='orderbook', orders=orders, full_exec=bool(a.full_exec)))
